@@ -203,6 +203,104 @@ fn decode_body(ctx: &Ctx, idx: u64) -> Report {
     report
 }
 
+// ---------------------------------------------------------------------------------------------
+// Node level: a running node receives hostile datagrams interleaved with valid traffic and must
+// keep serving. Runs in a supervised child process as well (an abort would take the harness down).
+
+fn node_scenario(ctx: &Ctx, idx: u64) -> Report {
+    use crate::bed::{Bed, BedOpts};
+    use crate::refcodec::{Krpc, Query};
+    use crate::simnet::{run_sim, sleep_us, MS, SEC};
+    use rand::seq::SliceRandom;
+    let ctx = *ctx;
+    run_sim(move || async move {
+        let mut report = Report::default();
+        let seed = sseed(&ctx, "node", idx);
+        let mut rng = ChaCha8Rng::seed_from_u64(seed);
+        let info = replay_info("C14", "node", &ctx, idx);
+        let hostile = Hostile::new();
+        let batches = ctx.tier.pick(12, 60);
+        for run in 0..ctx.tier.pick(3, 6) {
+            let mut opts = BedOpts::random(&mut rng);
+            opts.read_only = false;
+            opts.world_size = *[0usize, 3, 30].choose(&mut rng).unwrap();
+            let mut bed = Bed::new(seed ^ run as u64, &mut rng, &opts).await;
+            report.evaluations += 1;
+            let world_addrs: Vec<std::net::SocketAddr> = bed.world.lock().unwrap().nodes.iter().map(|n| n.addr).collect();
+            for batch in 0..batches {
+                // a search may be running while the garbage arrives
+                let search = if rng.gen_bool(0.3) {
+                    let (net, dht, ih) = (bed.net.clone(), bed.dht.clone(), gen::rand_id(&mut rng));
+                    Some(tokio::spawn(async move {
+                        crate::world::run_search(&net, &dht, ih, true, std::time::Duration::from_secs(400)).await
+                    }))
+                } else {
+                    None
+                };
+                for _ in 0..rng.gen_range(5..60) {
+                    let (bytes, class) = hostile.datagram(&mut rng);
+                    journal_note(b'N', &bytes);
+                    // from a fresh address, or spoofed from one of the node's contacts
+                    let src = if !world_addrs.is_empty() && rng.gen_bool(0.3) {
+                        *world_addrs.choose(&mut rng).unwrap()
+                    } else {
+                        bed.client(rng.gen_bool(0.5), rng.gen_range(0..8))
+                    };
+                    bed.net.send_from_after(src, bed.addr, bytes, rng.gen_range(0..30 * MS));
+                    report.count("hostile_datagrams_injected_into_a_node");
+                    report.distinct(format!("node/{class:?}"));
+                    if rng.gen_bool(0.2) {
+                        // valid traffic in between
+                        let c = bed.client(bed.v6, 1);
+                        let q = Krpc::query(gen::tid(&mut rng), gen::rand_id(&mut rng), Query::FindNode { target: gen::id(&mut rng), want: gen::want(&mut rng) });
+                        bed.inject(c, q.encode());
+                    }
+                    if rng.gen_bool(0.1) {
+                        sleep_us(rng.gen_range(0..50 * MS)).await;
+                    }
+                }
+                sleep_us(50 * MS).await;
+                // ---- liveness after the batch
+                let c = bed.client(bed.v6, 2);
+                let ping = Krpc::query(b"live", gen::rand_id(&mut rng), Query::Ping);
+                let answers = bed.ask(c, &ping).await;
+                let lim = std::time::Duration::from_secs(2);
+                let state = crate::world::within(lim, bed.dht.get_state()).await;
+                let contacts = crate::world::within(lim, bed.dht.load_contacts()).await;
+                let laddr = crate::world::within(lim, bed.dht.local_addr()).await;
+                report.count("node_liveness_probes");
+                let api_ok = matches!(state, Some(Some(s)) if s.is_running) && matches!(contacts, Some(Ok(_))) && matches!(laddr, Some(Ok(_)));
+                if answers.len() != 1 || !api_ok {
+                    let panics = crate::runner::take_panics();
+                    report.violation(
+                        "C14",
+                        "node-stopped-serving",
+                        format!(
+                            "after batch {batch} of hostile datagrams the node answered a ping {} time(s); API calls complete: {api_ok}; panics seen: {:?}",
+                            answers.len(),
+                            panics.iter().take(2).collect::<Vec<_>>()
+                        ),
+                        info.clone().with("batch", batch as u64),
+                    );
+                    return report;
+                }
+                if let Some(s) = search {
+                    match tokio::time::timeout(std::time::Duration::from_secs(600), s).await {
+                        Ok(Ok(r)) if r.ended.is_some() => report.count("searches_completed_under_garbage"),
+                        _ => {
+                            report.violation("C14", "search-does-not-complete", "a search started while hostile datagrams arrived did not complete".to_owned(), info.clone());
+                            return report;
+                        }
+                    }
+                }
+            }
+            let _ = SEC;
+            crate::wiremon::always_on(&mut report, &bed.net, &[bed.addr], &info);
+        }
+        report
+    })
+}
+
 pub fn check(tier: Tier) -> Check {
     Check {
         id: "C14",
@@ -213,13 +311,20 @@ pub fn check(tier: Tier) -> Check {
                truncation, type confusion, non-UTF-8 text, bad keys, oversize, random bytes, bit flips; \
                plus systematic sweeps (every truncation offset, every class at every node position, every \
                magnitude) for some messages. Each input is decoded in a supervised worker process on a \
-               2 MiB stack under a counting allocator and panic hook. distinct_nontrivial = distinct \
+               2 MiB stack under a counting allocator and panic hook. Stream node: serving nodes (tables \
+               filled from worlds of 0/3/30 nodes) receive batches of 5..60 such datagrams from fresh and \
+               spoofed contact addresses of both families, interleaved with valid queries and running \
+               searches; after every batch a ping must be answered exactly once, get_state / load_contacts / \
+               local_addr must complete and started searches must end. distinct_nontrivial = distinct \
                (mutation class, accepted/rejected, size class) combinations observed.",
         assumptions: vec![
             "release profile, 2 MiB stack (tokio worker default) decide; \"out of proportion\" = a single request > 64 KiB or total > 64 x input + 64 KiB per decode (valid maximum-size traffic is measured in every shard and must stay below a quarter of that)",
         ],
         deciding: vec!["C14"],
-        streams: vec![Stream::new("decode", tier.pick(16, 64), decode_scenario).supervised(tier.pick(300.0, 1800.0))],
+        streams: vec![
+            Stream::new("decode", tier.pick(16, 64), decode_scenario).supervised(tier.pick(300.0, 1800.0)),
+            Stream::new("node", tier.pick(32, 320), node_scenario).supervised(tier.pick(300.0, 1800.0)),
+        ],
         require: vec![
             ("decode_rejected", tier.pick(100_000, 5_000_000)),
             ("decoded_ok", tier.pick(5_000, 200_000)),
@@ -227,6 +332,9 @@ pub fn check(tier: Tier) -> Check {
             ("class_Nesting", tier.pick(20_000, 500_000)),
             ("class_Truncation", tier.pick(20_000, 500_000)),
             ("systematic_sweeps", tier.pick(100, 3_000)),
+            ("hostile_datagrams_injected_into_a_node", tier.pick(20_000, 1_000_000)),
+            ("node_liveness_probes", tier.pick(800, 40_000)),
+            ("searches_completed_under_garbage", tier.pick(100, 5_000)),
         ],
         exhaustive: false,
     }
